@@ -5,7 +5,11 @@
 package main
 
 import (
+	"crypto/sha256"
+	"encoding/hex"
+	"encoding/json"
 	"fmt"
+	"go/printer"
 	"go/ast"
 	"go/parser"
 	"go/token"
@@ -24,8 +28,60 @@ func must(err error) {
 	}
 }
 
+// funcHashes prints, as JSON, a hash of the normalised source (comments dropped, gofmt layout) of every
+// function of the hand-modelled packages: the checks compare it with the inventory recorded for the tree the
+// model was written against and look harder (larger streams) when some function differs.
+func funcHashes(repo string) {
+	out := map[string]string{}
+	dirs := []string{"", "internal/interpreter", "internal/analysis", "internal/parser", "internal/lsp", "internal/cmd", "internal/utils"}
+	for _, d := range dirs {
+		entries, err := os.ReadDir(filepath.Join(repo, d))
+		must(err)
+		for _, e := range entries {
+			name := e.Name()
+			if e.IsDir() || !strings.HasSuffix(name, ".go") || strings.HasSuffix(name, "_test.go") {
+				continue
+			}
+			fset := token.NewFileSet()
+			f, err := parser.ParseFile(fset, filepath.Join(repo, d, name), nil, 0)
+			if err != nil {
+				out[filepath.Join(d, name)+":<file>"] = "unparsable"
+				continue
+			}
+			var gen strings.Builder
+			for _, decl := range f.Decls {
+				fd, ok := decl.(*ast.FuncDecl)
+				if !ok {
+					// constants, variables (tables, regular expressions), types: one hash per file
+					must(printer.Fprint(&gen, fset, decl))
+					gen.WriteString("\n")
+					continue
+				}
+				key := filepath.Join(d, name) + ":" + fd.Name.Name
+				if fd.Recv != nil && len(fd.Recv.List) > 0 {
+					key = filepath.Join(d, name) + ":" + types.ExprString(fd.Recv.List[0].Type) + "." + fd.Name.Name
+				}
+				var b strings.Builder
+				fd.Doc = nil
+				must(printer.Fprint(&b, fset, fd))
+				sum := sha256.Sum256([]byte(b.String()))
+				out[key] = hex.EncodeToString(sum[:8])
+			}
+			gsum := sha256.Sum256([]byte(gen.String()))
+			out[filepath.Join(d, name)+":<declarations>"] = hex.EncodeToString(gsum[:8])
+		}
+	}
+	enc := json.NewEncoder(os.Stdout)
+	enc.SetIndent("", " ")
+	must(enc.Encode(out))
+}
+
 func main() {
 	repo := os.Args[1]
+	if len(os.Args) > 2 && os.Args[2] == "--funcs" {
+		funcHashes(repo)
+		return
+	}
 	fset := token.NewFileSet()
 	consts := map[string]string{}
 	var files []*ast.File
